@@ -97,6 +97,23 @@ template<typename K> static void run_op(int op, Reg& reg, const Line& t, Out& o)
       if (it.size() >= limit) { it.push_back(std::make_pair((I)0, (I)-1)); break; }
       auto p = *i; it.push_back(std::make_pair(K::dec(p.first), (I)p.second));
     }
+    { // every way of walking the sketch must expose the same entries: post-increment, *it++, range-for
+      std::vector<std::pair<I, I>> w1, w2, w3;
+      for (auto i = s.begin(); i != s.end(); i++) {
+        if (w1.size() >= limit) { w1.push_back(std::make_pair((I)0, (I)-1)); break; }
+        auto p = *i; w1.push_back(std::make_pair(K::dec(p.first), (I)p.second));
+      }
+      for (auto i = s.begin(); i != s.end(); ) {
+        if (w2.size() >= limit) { w2.push_back(std::make_pair((I)0, (I)-1)); break; }
+        auto p = *i++; w2.push_back(std::make_pair(K::dec(p.first), (I)p.second));
+      }
+      for (const auto& p : s) {
+        if (w3.size() >= limit) { w3.push_back(std::make_pair((I)0, (I)-1)); break; }
+        w3.push_back(std::make_pair(K::dec(p.first), (I)p.second));
+      }
+      // on disagreement report the deviating walk: the oracle then judges it like any other exposed listing
+      if (w1 != it) it = w1; else if (w2 != it) it = w2; else if (w3 != it) it = w3;
+    }
     std::sort(it.begin(), it.end());
     o.R((I)it.size());
     for (auto& p : it) { o.R(p.first); o.R(p.second); }
